@@ -736,8 +736,10 @@ def write_evidence(pid, tier, seed, mod, results, wall, nviol):
         trusted_base=['cbmc 6.11.0 (symex + SAT/SMT back end named per query)', 'clang++-14 -O1 front end (IR generation from /repo sources)',
                       'tool/ll2c.py IR->C translator (validated this run: gcc build of generated C vs clang build of the same bitcode on seeded tapes)',
                       'tool/rt.c runtime model (allocation, exceptions, libstdc++ out-of-line tree/hash helpers)', 'compat shims: <source_location>, -Dconsteval=constexpr, overlay rules in tool/overlay.py'] + sorted(set(stubs)),
-        evaluations=len(results), distinct_nontrivial=len([r for r in passed if r.get('witnesses', 0) > 0]),
-        rule='one evaluation = one solver query set (harness x concrete shape/case-split variant), all values inside symbolic; counted non-trivial only if every reachability/satisfiability witness in it was confirmed reachable by the solver (non-vacuous)',
+        evaluations=obligations + sum(r.get('witnesses', 0) or 0 for r in results),
+        distinct_nontrivial=len(set((r['harness'], a) for r in passed if r.get('witnesses', 0) > 0 for a in r.get('assertions', []) if 'unwinding assertion' not in a)),
+        queries_run=len(results), queries_nonvacuous=len([r for r in passed if r.get('witnesses', 0) > 0]),
+        rule='one evaluation = one proof obligation decided by the solver for ALL symbolic values of its query (an assertion of the harness or of the code under test, an unwinding assertion, or a reachability/satisfiability witness); a query = harness x concrete shape/case-split variant. distinct_nontrivial = number of distinct (harness, assertion) pairs discharged in queries whose every witness label was confirmed reachable/satisfiable by the solver (non-vacuous); unwinding assertions are not counted',
         samples=samples, queries=[dict(id=r['id'], status=r['status'], wall_s=r['wall_s'], build_s=r.get('build_s'), native_build_s=r.get('native_build_s'), differential_s=r.get('differential_s'), solver_wall_s=r.get('solver_wall_s'), rss_kb=r.get('rss_kb'), backend=r.get('backend'), reason=r.get('reason', '')[:300] if r['status'] != 'pass' else None) for r in results],
         functions_encoded=sorted(set(funcs)), stubs=sorted(set(stubs)), bounds=bounds,
         solver_time_s=round(sum(r.get('solver_wall_s', 0) or 0 for r in results), 2), peak_rss_kb=max([r.get('rss_kb', 0) or 0 for r in results] + [0]),
